@@ -181,6 +181,35 @@ def run_loader(tier, acc):
         if not ok or got != ref:
             acc.fail({'kind': 'loader', 'column': col}, 'loader grouping of column %r: got %r expected %r' % (col, got, ref), 'grouping')
     acc.sample({'kind': 'loader', 'column': [.5, .25, .25, .125], 'groups': R.group_rows([(str(i), p) for i, p in enumerate([.5, .25, .25, .125])])})
+    # pre-terminals as the loader builds them: every base structure of a loaded ruleset (masks inserted by the loader) x every group index vector
+    G = tree.imp('lib_guesser.pcfg_grammar').PcfgGrammar
+    for ti, term in enumerate(D.TERMINALS[:3]):
+        for st in D.STRUCTS:
+            if st == 'M':
+                continue
+            spec = dict(term)
+            spec.update(grammar=[(st, 1.0)], prince=D.PRINCE)
+            rdir = os.path.join(root, 'r%d%s' % (ti, st))
+            R.write_ruleset(rdir, spec)
+            g = D.load(G, rdir, False, False, 'Grammar')
+            types, base = R.ref_loaded(spec)
+            want_reps = base[0][1]
+            have_reps = list(g.base[0]['replacements'])
+            case = {'kind': 'loaded', 'terminals': ti, 'structure': st}
+            if have_reps != want_reps:
+                acc.fail(case, 'structure %s is loaded as %r, expected %r' % (st, have_reps, want_reps), 'loaded-structure')
+                continue
+            for idx in itertools.product(*[range(len(types[r])) for r in want_reps]):
+                acc.evals += 1
+                pt = list(zip(want_reps, idx))
+                ref = R.expand_pt(types, pt)
+                lines, n = capture(g, pt)
+                if len(ref) >= 2:
+                    acc.nontrivial += 1
+                if Counter(lines) != Counter(ref) or n != len(lines):
+                    acc.fail(dict(case, pt=[list(x) for x in pt]), 'loaded pre-terminal %r expands to %r (count %r), expected %r' % (pt, sorted(lines)[:6], n, sorted(ref)[:6]), 'loaded-expansion')
+                    break
+            tree.rmtree(rdir)
     tree.rmtree(root)
 
 
@@ -256,7 +285,7 @@ def replay(case):
         if n != len(lines):
             return 'count %r != %d lines' % (n, len(lines))
         return None
-    if case['kind'] == 'loader':
+    if case['kind'] in ('loader', 'loaded'):
         run_loader('thorough', acc)
     else:
         run_markov('quick', acc)
